@@ -103,7 +103,12 @@ func (this *Utxos) Len() int {
 
 func (this *Utxos) Less(i, j int) bool {
 	if this.Utxos[i].Value == this.Utxos[j].Value {
-		return bytes.Compare(this.Utxos[i].Op.Hash, this.Utxos[j].Op.Hash) == -1
+		// two outputs of one transaction can carry the same value: order them by output index, so that
+		// every sort of the same outpoints yields the same sequence (chooseUtxos relies on it)
+		if c := bytes.Compare(this.Utxos[i].Op.Hash, this.Utxos[j].Op.Hash); c != 0 {
+			return c == -1
+		}
+		return this.Utxos[i].Op.Index < this.Utxos[j].Op.Index
 	}
 	return this.Utxos[i].Value < this.Utxos[j].Value
 }
